@@ -758,6 +758,14 @@ func (w *Writer) partitions(ctx context.Context, topic string) (int, error) {
 	//
 	// It is expected that the transport will optimize this request by
 	// caching recent results (the kafka.Transport types does).
+	//
+	// Going around the client also goes around its timeout, which has to be
+	// applied here: the caller's context may never end.
+	if client.Timeout > 0 {
+		var cancel context.CancelFunc
+		ctx, cancel = context.WithTimeout(ctx, client.Timeout)
+		defer cancel()
+	}
 	r, err := client.transport().RoundTrip(ctx, client.Addr, &metadataAPI.Request{
 		TopicNames:             []string{topic},
 		AllowAutoTopicCreation: w.AllowAutoTopicCreation,
